@@ -30,6 +30,12 @@ var c05Table = map[byte]refmodel.Behaviour{
 	'x': {refmodel.SNext, refmodel.SWrite, refmodel.SProbe},    // writes after the rest of the chain returned
 	'y': {refmodel.SNext, refmodel.SWriteStr, refmodel.SProbe}, // ... through io.WriteString(c.Resp, ...)
 	'v': {refmodel.SWriteStr, refmodel.SNext},
+	// an abort followed by three more Next calls (none of them may start anything)
+	'B': {refmodel.SAbort, refmodel.SNext, refmodel.SNext, refmodel.SNext, refmodel.SProbe},
+	// status-only aborts followed by a Flush (the flush commits the selected status); Next, then Flush on the way back
+	'F': {refmodel.SAbortSt, refmodel.SFlush, refmodel.SProbe},
+	'G': {refmodel.SNext, refmodel.SFlush, refmodel.SProbe},
+	'H': {refmodel.SStatus, refmodel.SFlush, refmodel.SNext},
 }
 
 const c05Codes = "pnqabctsmwuz"
@@ -274,6 +280,16 @@ func c05Gen(tier string, emit func(c05Case)) {
 			}
 		}
 	}
+	// aborts followed by further Next calls / by a Flush before any body byte
+	for n := 1; n <= 4; n++ {
+		for _, sp := range splitsOf(n - 1) {
+			vectors("qsBFGH", n, func(b string) {
+				if strings.ContainsAny(b, "BFGH") {
+					push(chainShape{N: n, Split: sp, Via: viaFor(sp), Beh: b})
+				}
+			})
+		}
+	}
 	for n := 2; n <= 4; n++ {
 		vectors("pnqabtsmuz", n, func(b string) {
 			push(chainShape{N: n, Split: [3]int{n - 1, 0, 0}, Via: "notfound-custom-first", Beh: b})
@@ -311,6 +327,9 @@ func c05Gen(tier string, emit func(c05Case)) {
 		for _, def := range []byte{'q', 'p', 'n'} {
 			for _, sp := range splits {
 				deviations(n, def, "abctsmw", d, func(b string) { push(chainShape{N: n, Split: sp, Via: "use", Beh: b}) })
+				if n >= 61 {
+					deviations(n, def, "BF", 1, func(b string) { push(chainShape{N: n, Split: sp, Via: "use", Beh: b}) })
+				}
 				if n >= 61 && def != 'p' {
 					deviations(n, def, "acse", 1, func(b string) { push(chainShape{N: n, Split: sp, Via: "use", Beh: b, Hooks: "EP"}) })
 				}
@@ -342,7 +361,7 @@ func c05Run(c c05Case, st *fw.Stats) []fw.Viol {
 		st.Max("max_chain", int64(sh.N))
 	}
 	if st.WantSample() {
-		st.Sample(map[string]any{"chain": c.Shapes[0], "codes": "y=Next,io.WriteString,probe v=io.WriteString,Next x=Next,write,probe e=AddError,Next,probe f=AddError p=plain n=Next q=Next,probe a=probe,Abort,probe b=Abort,probe,Next,probe c=Next,probe,Abort,probe t=AbortThen,probe s=AbortWithStatus,probe m=AbortWithStatus(msg),probe,Next w=write,Next,probe u=SetStatus(201),Next z=AbortWithStatus(200),probe D=built-in 404 responder r=HandleContext to a route whose middleware aborts,probe,Next,probe"})
+		st.Sample(map[string]any{"chain": c.Shapes[0], "codes": "y=Next,io.WriteString,probe v=io.WriteString,Next x=Next,write,probe e=AddError,Next,probe f=AddError p=plain n=Next q=Next,probe a=probe,Abort,probe b=Abort,probe,Next,probe c=Next,probe,Abort,probe t=AbortThen,probe s=AbortWithStatus,probe m=AbortWithStatus(msg),probe,Next w=write,Next,probe u=SetStatus(201),Next z=AbortWithStatus(200),probe B=Abort,Next,Next,Next,probe F=AbortWithStatus,Flush,probe G=Next,Flush,probe H=SetStatus(201),Flush,Next D=built-in 404 responder r=HandleContext to a route whose middleware aborts,probe,Next,probe"})
 	}
 	return vs
 }
@@ -350,7 +369,7 @@ func c05Run(c c05Case, st *fw.Stats) []fw.Viol {
 var c05Spec = fw.Spec[c05Case]{
 	ID:    "C05",
 	Level: "model_checking",
-	Rule: "complete product: all behaviour vectors over 12 handler behaviours (+ chains of global middleware around the built-in not-found responder) (+ one handler that re-dispatches with HandleContext to an aborting route, at every position of route-level chains n<=5) (+ the n<=3 product and the near-limit chains again on routers with OnError / OnPanic hooks installed and handlers that record errors) (+ the n<=3 product of chains containing an abort behind a pass-through wrapper of c.Resp, on a router that served a hijacking request / a request that aborted and then panicked before, and in debug mode) (plain, Next, Next+probe, SetStatus(201)+Next, Abort before/after/without Next, AbortThen, AbortWithStatus with/without message, write-then-Next) for chains of n<=4 (thorough 5) handlers x every split of the middleware into global/group/route; n=5 and chains near the handler limit (33,34,61,62,63) by deviation bounding (uniform default behaviour, <=d deviating positions at every position); IsAborted() sampled at every entry and around every abort/Next; " +
+	Rule: "complete product: all behaviour vectors over 12 handler behaviours (+ n<=4 over {Next+probe, AbortWithStatus, Abort followed by three more Next calls, AbortWithStatus followed by Flush, Next then Flush, SetStatus then Flush}, and those behaviours as the single deviation of chains of 61..63 handlers) (+ chains of global middleware around the built-in not-found responder) (+ one handler that re-dispatches with HandleContext to an aborting route, at every position of route-level chains n<=5) (+ the n<=3 product and the near-limit chains again on routers with OnError / OnPanic hooks installed and handlers that record errors) (+ the n<=3 product of chains containing an abort behind a pass-through wrapper of c.Resp, on a router that served a hijacking request / a request that aborted and then panicked before, and in debug mode) (plain, Next, Next+probe, SetStatus(201)+Next, Abort before/after/without Next, AbortThen, AbortWithStatus with/without message, write-then-Next) for chains of n<=4 (thorough 5) handlers x every split of the middleware into global/group/route; n=5 and chains near the handler limit (33,34,61,62,63) by deviation bounding (uniform default behaviour, <=d deviating positions at every position); IsAborted() sampled at every entry and around every abort/Next; " +
 		"each chain is run through ServeHTTP and compared event by event with a cursor-free chain interpreter; non-trivial = a chain containing an abort",
 	Assume: []string{"chains stay within the documented limit (62 middleware + main handler); global middleware is not counted by any registration check (noted in DESIGN, outside the property)"},
 	Bounds: func(tier string) map[string]any {
